@@ -262,6 +262,25 @@ func GenRegex(r *Rng) string {
 	if r.Chance(1, 10) {
 		return r.Pick([]string{"(", "a(", "[a", "a**", "(?P<n", "a{2,1}", "\\", "(?z)a", "*a", ")"})
 	}
+	if r.Chance(1, 12) {
+		// literal text with anchors in usual and unusual (but legal) places
+		out := ""
+		for n := r.Range(1, 4); n > 0; n-- {
+			switch r.Weighted([]int{6, 1, 1}) {
+			case 0:
+				out += string("abcd"[r.Intn(4)])
+			case 1:
+				out += "^"
+			default:
+				out += "$"
+			}
+		}
+		return out
+	}
+	if r.Chance(1, 25) {
+		// patterns made of quote characters (one kind only, so that an XPath 1.0 literal can hold them)
+		return r.Pick([]string{"'", "''", "\"", "\"\"", "a'", "'b'"})
+	}
 	groups := 0
 	var gen func(d int) string
 	gen = func(d int) string {
@@ -325,6 +344,8 @@ func genSubject(r *Rng) string {
 	for i := 0; i < n; i++ {
 		if r.Chance(1, 12) {
 			out += r.Pick([]string{"é", "中", "ü"}) // multi-byte characters
+		} else if r.Chance(1, 25) {
+			out += "'" // a quote character (only this kind in subjects, see q())
 		} else {
 			out += string("abcd"[r.Intn(4)])
 		}
@@ -416,13 +437,16 @@ func GenC16H(seed, run uint64) *Scenario {
 		if r.Chance(4, 5) {
 			e.A = append(e.A, [2]string{"k", genSubject(r)})
 		}
+		if r.Chance(2, 3) {
+			e.C = append(e.C, &NodeSpec{K: "t", V: genSubject(r)}) // a string value for self::name subjects
+		}
 		top.C = append(top.C, e)
 	}
 	doc.C = []*NodeSpec{top}
 	s.Docs = []DocSpec{doc}
 	for n := r.Weighted([]int{2, 3, 2}); n > 0; n-- {
 		at := r.Intn(len(s.Steps) + 1)
-		st := Step{Op: "matchnodes", N: r.Intn(3)}
+		st := Step{Op: "matchnodes", N: r.Intn(5), K: keys[r.Intn(len(keys))]}
 		s.Steps = append(s.Steps[:at:at], append([]Step{st}, s.Steps[at:]...)...)
 	}
 	if s.Cfg.Faults {
